@@ -178,6 +178,21 @@ def model_check_codec(chk: Check, cfg: str, workers: int = 16, timeout: int = 30
     chk.add_tlc(f"MC_Codec/{cfg}", res)
 
 
+def model_check_machine(chk: Check, thorough: bool) -> None:
+    """TotalDecoder: the operational decoder machine on every byte string up to a bound; the three
+    non-vacuity probes must each be violated."""
+    cfg = "MC_CodecMachine_thorough.cfg" if thorough else "MC_CodecMachine_quick.cfg"
+    res = tlc.run_tlc("MC_CodecMachine", cfg=cfg, workers=16, timeout=4 * 3600, xmx="16g")
+    if not tlc.tlc_ok(res):
+        raise Machinery(f"MC_CodecMachine/{cfg} failed:\n{res['out'][-2500:]}")
+    chk.add_tlc(f"MC_CodecMachine/{cfg}", res)
+    for probe in ("NeverReturns", "NeverSkipsUnknownTag", "NeverLenient"):
+        r = tlc.run_tlc("MC_CodecMachine", cfg=f"MC_CodecMachine_probe_{probe}.cfg", workers=8, timeout=3000, xmx="8g")
+        if f"Invariant {probe} is violated" not in r["out"]:
+            raise Machinery(f"non-vacuity probe {probe} was not violated: the machine model never reaches that "
+                            f"behaviour\n{r['out'][-1500:]}")
+
+
 # --------------------------------------------------------------------------- spec -> code
 def emit_universe(chk: Check, cfg: str = "MC_Codec_emit.cfg") -> list[dict]:
     res = tlc.run_tlc("MC_Codec", cfg=cfg, workers=1, timeout=3000, xmx="6g")
@@ -556,7 +571,9 @@ def check_C10(chk: Check, replay: str | None) -> None:
     if replay:
         raise Machinery("replay: re-run the check with the same VERIF_SEED")
     thorough = chk.tier == "thorough"
-    model_check_codec(chk, "MC_Codec_thorough.cfg" if thorough else "MC_Codec_quick.cfg")
+    if thorough:
+        model_check_codec(chk, "MC_Codec_thorough.cfg")
+    model_check_machine(chk, thorough)
     n, ins, encoded = _gen_inputs(chk, 6 if thorough else 2, 17)
     args = [(ins[i]["path"], encoded[ins[i]["path"]], os.path.join(chk.scratch, f"mu{i}.json"),
              chk.seed + 19, 80 if thorough else 20, 4) for i in range(len(ins))]
